@@ -163,6 +163,9 @@ func asInt(j J) (int, error) {
 	return 0, fmt.Errorf("cwf: expected int, got %T", j)
 }
 
+// AsInt reads a small (native) integer.
+func AsInt(j J) (int, error) { return asInt(j) }
+
 func asStr(j J) (string, error) {
 	if s, ok := j.(string); ok {
 		return s, nil
